@@ -4,6 +4,7 @@ Decided per unit as a reachability question: is any panic point (MIR assert, unr
 feasible?  Units: every builtin closure on every argument shape; Operator::eval / eval_mut for all operator variants on argument
 vectors of length 0..3; the tree builder on all token-kind sequences within the bound; the tokenizer on free characters;
 Display of values / tokens / errors / trees.  Every unit runs with integer-overflow checks on and off."""
+import zlib
 import sys, os, time, random, itertools
 import z3
 sys.path.insert(0, os.path.dirname(os.path.dirname(os.path.abspath(__file__))))
@@ -14,6 +15,7 @@ from skel import *
 import c10, c13
 
 PID = 'C01'
+CVC5_RATE = [0.01]
 OPERATORS = ['RootNode', 'Add', 'Sub', 'Neg', 'Mul', 'Div', 'Mod', 'Exp', 'Eq', 'Neq', 'Gt', 'Lt', 'Geq', 'Leq', 'And', 'Or', 'Not',
              'Assign', 'AddAssign', 'SubAssign', 'MulAssign', 'DivAssign', 'ModAssign', 'ExpAssign', 'AndAssign', 'OrAssign', 'Tuple', 'Chain',
              'Const', 'VariableIdentifierWrite', 'VariableIdentifierRead', 'FunctionIdentifier']
@@ -63,7 +65,7 @@ def unit(u, res):
 def unit_operator(u, res):
     _, opname, shape_lists, ofc, timeout_ms, seed = u
     C = ctx(ofc)
-    pr = checklib.Prover(res, timeout_ms)
+    pr = checklib.Prover(res, timeout_ms, CVC5_RATE[0], random.Random(zlib.crc32(repr(u).encode()) ^ checklib.env_seed()))
     for shapes in shape_lists:
         for ctxkind in ('hashmap', 'empty', 'emptyb'):
             cons = []
@@ -113,7 +115,7 @@ def unit_operator(u, res):
 def unit_tree(u, res):
     _, seqs, ofc, timeout_ms, seed = u
     C = ctx(ofc)
-    pr = checklib.Prover(res, timeout_ms)
+    pr = checklib.Prover(res, timeout_ms, CVC5_RATE[0], random.Random(zlib.crc32(repr(u).encode()) ^ checklib.env_seed()))
     for seq in seqs:
         t0 = time.time()
         try:
@@ -153,7 +155,7 @@ def c13_run(C, seq):
 def unit_lex(u, res):
     _, templates, ofc, timeout_ms, seed = u
     C = ctx(ofc)
-    pr = checklib.Prover(res, timeout_ms)
+    pr = checklib.Prover(res, timeout_ms, CVC5_RATE[0], random.Random(zlib.crc32(repr(u).encode()) ^ checklib.env_seed()))
     for tmpl in templates:
         cons = []
         chars = []
@@ -213,7 +215,7 @@ def first_char_class(v, k):
 def unit_display(u, res):
     _, what, ofc, timeout_ms, seed = u
     C = ctx(ofc)
-    pr = checklib.Prover(res, timeout_ms)
+    pr = checklib.Prover(res, timeout_ms, CVC5_RATE[0], random.Random(zlib.crc32(repr(u).encode()) ^ checklib.env_seed()))
     cons = []
     if what[0] == 'value':
         v, spec = make_value(C, what[1], 'd', cons)
@@ -338,6 +340,7 @@ def main():
     t0 = time.time()
     tier = checklib.env_tier()
     seed = checklib.env_seed()
+    CVC5_RATE[0] = 0.01 if tier == 'quick' else 0.1
     timeout_ms = 60000 if tier == 'quick' else 600000
     units = []
     bunits, shapes, _ = c10.make_units(tier, seed, 'c01')
